@@ -12,6 +12,54 @@ pub mod m3 {
     pub fn convex(pts: &[dx::Point<f64>]) -> Box<dyn px::shape::Shape> {
         Box::new(px::shape::ConvexPolyhedron::from_convex_hull(pts).expect("convex hull"))
     }
+    /// `hf nr nc <nr*nc heights, column-major> sx sy sz ns (i j bits)*ns`  (bits: 1 zig-zag, 2 left removed, 4 right removed)
+    pub fn heightfield(a: &mut Args) -> Box<dyn px::shape::Shape> {
+        let nr = a.u(); let nc = a.u();
+        let hs: Vec<f64> = (0..nr * nc).map(|_| a.f()).collect();
+        let sc = dx::v(a);
+        let mut hf = px::shape::HeightField::new(px::na::DMatrix::from_column_slice(nr, nc, &hs), sc);
+        let ns = a.u();
+        for _ in 0..ns { let i = a.u(); let j = a.u(); let b = a.u() as u8; hf.set_cell_status(i, j, px::shape::HeightFieldCellStatus::from_bits_truncate(b)); }
+        Box::new(hf)
+    }
+    pub fn hf_parts(h: &px::shape::HeightField) -> Vec<(dx::Isometry<f64>, Box<dyn px::shape::Shape>)> {
+        h.triangles().map(|t| (dx::Isometry::identity(), Box::new(t) as Box<dyn px::shape::Shape>)).collect()
+    }
+    pub fn trimesh(pts: Vec<dx::Point<f64>>, idx: Vec<[u32; 3]>) -> Box<dyn px::shape::Shape> {
+        Box::new(px::shape::TriMesh::new(pts, idx).expect("trimesh"))
+    }
+    pub struct HfInfo { pub tok: String, pub half: [f64; 2], pub cw: [f64; 2], pub top: f64, pub haxes: Vec<usize> }
+    /// random height field: 3..6 x 3..6 samples, some zig-zag / removed cells
+    pub fn gen_hf(r: &mut Rng, lat: bool) -> HfInfo {
+        let nr = 3 + r.below(4) as usize; let nc = 3 + r.below(4) as usize;
+        let hs: Vec<f64> = (0..nr * nc).map(|_| if lat { r.range(-2, 2) as f64 * 0.25 } else { r.uniform(-0.5, 0.5) }).collect();
+        let sc = if lat { dx::Vector::new(*r.pick(&[4.0, 8.0, 12.0]), *r.pick(&[0.5, 1.0, 2.0]), *r.pick(&[4.0, 8.0, 12.0])) }
+                 else { dx::Vector::new(r.uniform(4.0, 14.0), r.uniform(0.5, 2.0), r.uniform(4.0, 14.0)) };
+        let mut st = Vec::new();
+        for i in 0..nr - 1 { for j in 0..nc - 1 { if r.below(5) == 0 { st.push(format!("{} {} {}", i, j, *r.pick(&[1u8, 1, 2, 4, 6, 3, 5]))); } } }
+        let top = hs.iter().cloned().fold(f64::MIN, f64::max) * sc.y;
+        let tok = format!("hf {} {} {} {} {}{}{}", nr, nc, hxs(hs.iter()), dx::hv(&sc), st.len(), if st.is_empty() { "" } else { " " }, st.join(" "));
+        // x spans the columns (nc), z the rows (nr)
+        HfInfo { tok, half: [sc.x * 0.5, sc.z * 0.5], cw: [sc.x / (nc - 1) as f64, sc.z / (nr - 1) as f64], top, haxes: vec![0, 2] }
+    }
+    /// small triangle mesh: a bumpy 3x3 .. 4x4 grid, or a tetrahedron
+    pub fn gen_trimesh_tok(r: &mut Rng, lat: bool) -> (String, Vec<dx::Point<f64>>) {
+        let mut pts = Vec::new(); let mut idx: Vec<[usize; 3]> = Vec::new();
+        if r.below(4) == 0 {
+            let s = if lat { 2.0 } else { r.uniform(1.0, 3.0) };
+            pts = vec![dx::Point::new(s, s, s), dx::Point::new(s, -s, -s), dx::Point::new(-s, s, -s), dx::Point::new(-s, -s, s)];
+            idx = vec![[0, 1, 2], [0, 3, 1], [0, 2, 3], [1, 3, 2]];
+        } else {
+            let n = 3 + r.below(2) as usize; let w = if lat { 2.0 } else { r.uniform(1.0, 2.5) };
+            for i in 0..n { for j in 0..n {
+                let h = if lat { r.range(-2, 2) as f64 * 0.25 } else { r.uniform(-0.6, 0.6) };
+                pts.push(dx::Point::new((j as f64 - (n - 1) as f64 * 0.5) * w, h, (i as f64 - (n - 1) as f64 * 0.5) * w)); } }
+            for i in 0..n - 1 { for j in 0..n - 1 { let a = i * n + j; idx.push([a, a + n, a + 1]); idx.push([a + 1, a + n, a + n + 1]); } }
+        }
+        let tok = format!("tm {} {} {} {}", pts.len(), pts.iter().map(|p| dx::hp(p)).collect::<Vec<_>>().join(" "), idx.len(),
+                          idx.iter().map(|t| format!("{} {} {}", t[0], t[1], t[2])).collect::<Vec<_>>().join(" "));
+        (tok, pts)
+    }
     pub fn axis(i: usize, s: f64) -> dx::Vector<f64> { let mut v = dx::Vector::zeros(); v[i % 3] = s; v }
     /// a vector orthogonal to `v` (not normalised), lattice-friendly
     pub fn ortho(v: &dx::Vector<f64>) -> dx::Vector<f64> {
@@ -43,6 +91,44 @@ pub mod m2 {
     }
     pub fn convex(pts: &[dx::Point<f64>]) -> Box<dyn px::shape::Shape> {
         Box::new(px::shape::ConvexPolygon::from_convex_hull(pts).expect("convex hull"))
+    }
+    /// `hf n <heights> sx sy nrem idx*nrem`
+    pub fn heightfield(a: &mut Args) -> Box<dyn px::shape::Shape> {
+        let n = a.u();
+        let hs: Vec<f64> = (0..n).map(|_| a.f()).collect();
+        let sc = dx::v(a);
+        let mut hf = px::shape::HeightField::new(px::na::DVector::from_column_slice(&hs), sc);
+        let nrem = a.u();
+        for _ in 0..nrem { let i = a.u(); hf.set_segment_removed(i, true); }
+        Box::new(hf)
+    }
+    pub fn hf_parts(h: &px::shape::HeightField) -> Vec<(dx::Isometry<f64>, Box<dyn px::shape::Shape>)> {
+        h.segments().map(|t| (dx::Isometry::identity(), Box::new(t) as Box<dyn px::shape::Shape>)).collect()
+    }
+    pub fn trimesh(pts: Vec<dx::Point<f64>>, idx: Vec<[u32; 3]>) -> Box<dyn px::shape::Shape> {
+        Box::new(px::shape::TriMesh::new(pts, idx).expect("trimesh"))
+    }
+    pub struct HfInfo { pub tok: String, pub half: [f64; 2], pub cw: [f64; 2], pub top: f64, pub haxes: Vec<usize> }
+    pub fn gen_hf(r: &mut Rng, lat: bool) -> HfInfo {
+        let n = 4 + r.below(6) as usize;
+        let hs: Vec<f64> = (0..n).map(|_| if lat { r.range(-2, 2) as f64 * 0.25 } else { r.uniform(-0.5, 0.5) }).collect();
+        let sc = if lat { dx::Vector::new(*r.pick(&[4.0, 8.0, 12.0]), *r.pick(&[0.5, 1.0, 2.0])) } else { dx::Vector::new(r.uniform(4.0, 14.0), r.uniform(0.5, 2.0)) };
+        let mut rem = Vec::new();
+        for i in 0..n - 1 { if r.below(6) == 0 { rem.push(format!("{}", i)); } }
+        let top = hs.iter().cloned().fold(f64::MIN, f64::max) * sc.y;
+        let tok = format!("hf {} {} {} {}{}{}", n, hxs(hs.iter()), dx::hv(&sc), rem.len(), if rem.is_empty() { "" } else { " " }, rem.join(" "));
+        HfInfo { tok, half: [sc.x * 0.5, 0.0], cw: [sc.x / (n - 1) as f64, 1.0], top, haxes: vec![0] }
+    }
+    /// small 2-D triangle mesh: a fan / strip of triangles
+    pub fn gen_trimesh_tok(r: &mut Rng, lat: bool) -> (String, Vec<dx::Point<f64>>) {
+        let n = 3 + r.below(3) as usize; let w = if lat { 2.0 } else { r.uniform(1.0, 2.5) };
+        let mut pts = Vec::new(); let mut idx: Vec<[usize; 3]> = Vec::new();
+        for j in 0..n { let h = if lat { r.range(0, 3) as f64 * 0.5 } else { r.uniform(0.0, 1.5) };
+            pts.push(dx::Point::new((j as f64 - (n - 1) as f64 * 0.5) * w, -1.0 - h)); pts.push(dx::Point::new((j as f64 - (n - 1) as f64 * 0.5) * w, 1.0 + h)); }
+        for j in 0..n - 1 { let a = 2 * j; idx.push([a, a + 2, a + 1]); idx.push([a + 1, a + 2, a + 3]); }
+        let tok = format!("tm {} {} {} {}", pts.len(), pts.iter().map(|p| dx::hp(p)).collect::<Vec<_>>().join(" "), idx.len(),
+                          idx.iter().map(|t| format!("{} {} {}", t[0], t[1], t[2])).collect::<Vec<_>>().join(" "));
+        (tok, pts)
     }
     pub fn axis(i: usize, s: f64) -> dx::Vector<f64> { let mut v = dx::Vector::zeros(); v[i % 2] = s; v }
     pub fn ortho(v: &dx::Vector<f64>) -> dx::Vector<f64> { dx::Vector::new(-v.y, v.x) }
